@@ -156,13 +156,14 @@ def copy_item(b, read, rel, kind, name, strip=True):
     return t
 
 
-def annotate_closure(fn_text, name, params, ret, ensures, label):
+def annotate_closure(fn_text, name, params, ret, ensures, label, tag=None):
     """Contract on a local closure `let NAME = |p| {`: parameter types, named result, ensures."""
     m = re.search(r"let\s+" + re.escape(name) + r"\s*=\s*\|([^|]*)\|\s*\{", fn_text)
     if not m or len(re.findall(r"let\s+" + re.escape(name) + r"\s*=\s*\|", fn_text)) != 1:
         from common import Undecided
         raise Undecided(f"closure `{name}` not found exactly once ({label})")
-    new = f"let {name} = |{params}| -> (r: {ret})\n        ensures {ensures}\n    {{"
+    tagtxt = f" // [{tag}]" if tag else ""
+    new = f"let {name} = |{params}| -> (r: {ret})\n        ensures {ensures}{tagtxt}\n    {{"
     return fn_text[:m.start()] + new + fn_text[m.end():]
 
 
